@@ -2,7 +2,7 @@ use crate::{
     builtins::core::{PlainDateTime, ZonedDateTime},
     builtins::TZ_PROVIDER,
     options::Disambiguation,
-    TemporalError, TemporalResult, TimeZone,
+    TemporalResult, TimeZone,
 };
 
 impl PlainDateTime {
@@ -16,7 +16,8 @@ impl PlainDateTime {
     ) -> TemporalResult<ZonedDateTime> {
         let provider = TZ_PROVIDER
             .lock()
-            .map_err(|_| TemporalError::general("Unable to acquire lock"))?;
+            // NOTE: A panic in an earlier call poisons the lock; the provider is still usable.
+            .unwrap_or_else(std::sync::PoisonError::into_inner);
 
         self.to_zoned_date_time_with_provider(time_zone, disambiguation, &*provider)
     }
